@@ -124,6 +124,24 @@ func init() {
 				e.Violate("c17-content", fmt.Sprintf("%s rendered %q (%s %s), the inline form gives %q", t[0], o.Out, o.Class, firstLine(o.Msg), t[1]), map[string]interface{}{"case": c, "observed": o})
 			}
 		}
+		// the same helper call site reached again in a FRESH scope within one execution (the body of an inner loop
+		// on every pass of the outer one, a function called several times): partial, contentFor / contentOf, a
+		// default block and a block helper render what the inline body renders there
+		for _, t := range [][2]string{
+			{`<%= for (x) in ["a", "b"] { %><%= for (y) in [1, 2, 3] { %>(<%= x %><%= y %>)<% } %><% } %>`, "(a1)(a2)(a3)(b1)(b2)(b3)"},
+			{`<%= for (x) in ["a", "b"] { %><%= for (y) in [1, 2, 3] { %><%= partial("cell") %><% } %><% } %>`, "(a1)(a2)(a3)(b1)(b2)(b3)"},
+			{`<%= for (x) in ["a", "b"] { %><%= for (y) in [1, 2, 3] { %><% contentFor("cc") { %>(<%= x %><%= y %>)<% } %><%= contentOf("cc") %><% } %><% } %>`, "(a1)(a2)(a3)(b1)(b2)(b3)"},
+			{`<%= for (x) in ["a", "b"] { %><%= for (y) in [1, 2, 3] { %><%= contentOf("nodef17") { %>(<%= x %><%= y %>)<% } %><% } %><% } %>`, "(a1)(a2)(a3)(b1)(b2)(b3)"},
+			{`<%= for (x) in ["a", "b"] { %><%= for (y) in [1, 2, 3] { %><%= blk() { %><%= x %><%= y %><% } %><% } %><% } %>`, "[a1][a2][a3][b1][b2][b3]"},
+			{`<% let f = fn(x) { %><%= partial("cellx") %><%= blkctx({y: x}) { %><%= x %><%= y %><% } %><% } %><%= f("p") %>|<%= f("q") %>`, "<p>pp|<q>qq"},
+		} {
+			c := RCase{Tmpl: t[0], Binds: c17binds(), Parts: map[string]string{"cell": `(<%= x %><%= y %>)`, "cellx": `<<%= x %>>`}}
+			o := e.addRenderCase("call-site-in-fresh-scope", c)
+			e.Distinct(t[0])
+			if o.Class != "OK" || o.Out != t[1] {
+				e.Violate("c17-partial", fmt.Sprintf("%s rendered %q (%s %s), the inline form gives %q", t[0], o.Out, o.Class, firstLine(o.Msg), t[1]), map[string]interface{}{"case": c, "observed": o})
+			}
+		}
 		// a data key (or a variable of the caller) named like a BUILT-IN helper, read two or more scopes below
 		// where it was bound (a partial inside a partial, a loop inside a partial, a block of the partial
 		// replayed by its layout): it is what the caller bound, as in the inline form
